@@ -11,6 +11,7 @@ import (
 	"strings"
 	"sync"
 	"sync/atomic"
+	"time"
 
 	"github.com/tychoish/fun"
 	"github.com/tychoish/fun/erc"
@@ -120,7 +121,7 @@ func c12Gen(rng *rand.Rand, depth int, ctr *int) *enode {
 			return &enode{kind: "nil"}
 		}
 	}
-	kinds := []string{"join", "join", "join", "wrap", "fmtw", "stdjoin", "panic", "stack", "panic-string", "unwrap", "holes", "unwinder"}
+	kinds := []string{"join", "join", "join", "wrap", "fmtw", "stdjoin", "panic", "stack", "panic-string", "unwrap", "holes", "unwinder", "wrapf", "recovercall", "withtime"}
 	k := kinds[rng.IntN(len(kinds))]
 	n := &enode{kind: k}
 	nk := 1
@@ -271,6 +272,44 @@ func (n *enode) eval() eresult {
 			out.flat = append(out.flat, annotationMarker(n.ann))
 		}
 		out.desc = "Wrap(" + descs[0] + ")"
+	case "wrapf":
+		out.err = ers.Wrapf(kerrs[0], "%s-%d", n.ann, 7)
+		concat()
+		if len(out.flat) > 0 {
+			out.flat = append(out.flat, annotationMarker(n.ann+"-7"))
+		}
+		out.desc = "Wrapf(" + descs[0] + ")"
+	case "recovercall":
+		// a panic with the operand, recovered by the library's own wrapper
+		switch k := len(n.ann) % 3; {
+		case kerrs[0] == nil:
+			out.err = ers.WithRecoverCall(func() {})
+		case k == 0:
+			out.err = ers.WithRecoverCall(func() { panic(kerrs[0]) })
+		case k == 1:
+			out.err = ers.WrapRecoverCall(func() { panic(kerrs[0]) })()
+		default:
+			_, out.err = ers.WithRecoverDo(func() int { panic(kerrs[0]) })
+		}
+		concat()
+		if len(out.flat) > 0 {
+			out.flat = append(out.flat, ers.ErrRecoveredPanic)
+			out.leaves = append(out.leaves, ers.ErrRecoveredPanic)
+		}
+		out.desc = "WithRecoverCall(panic(" + descs[0] + "))"
+	case "withtime":
+		if kerrs[0] == nil {
+			if ers.WithTime(nil) != nil {
+				out.err = ers.WithTime(nil)
+			}
+			out.desc = "nil"
+			return out
+		}
+		w := ers.WithTime(kerrs[0])
+		out.err = w
+		out.flat = []error{w}
+		out.plain = false
+		out.desc = "WithTime(" + descs[0] + ")"
 	case "fmtw":
 		if kerrs[0] == nil {
 			out.desc = "nil"
@@ -320,6 +359,9 @@ func errKey(e error) string {
 	}
 	if _, ok := e.(interface{ Unwrap() error }); ok {
 		return fmt.Sprintf("wrap:%p", e)
+	}
+	if _, ok := e.(interface{ Time() time.Time }); ok {
+		return fmt.Sprintf("wrap:%p", e) // ers.WithTime: a wrapper that answers Is / As for what it holds
 	}
 	return fmt.Sprintf("ptr:%p:%s", e, e.Error())
 }
